@@ -246,13 +246,16 @@ def check(prop_id, tier, seed):
             bad = [v for v in rr.get("violations", []) if known_match(v.get("key", "")) is None]
             if bad:
                 confirmed = bad[0]
-        was_proved = o["name"] in exp_names
+        # shape obligations compare source text of grammar productions: a failure there is advisory
+        # (a harmless refactoring changes the text) and counts only if the native recogniser confirms it
+        advisory = o["name"].startswith("lemma:grammar.shapes/")
+        was_proved = o["name"] in exp_names and not advisory
         if confirmed is not None:
             violations.append({"source": "obligation " + o["name"], "key": confirmed.get("key"),
                                "what": confirmed.get("what"), "input": confirmed.get("input"),
                                "observed": confirmed.get("observed"), "expected": confirmed.get("expected"),
                                "obligation": payload})
-        elif was_proved or not exp_names:
+        elif was_proved or (not exp_names and not advisory):
             violations.append({"source": "obligation " + o["name"], "key": "obligation:" + o["name"],
                                "what": "obligation discharged on the reference tree now has a counter-model",
                                "obligation": payload, "no_input": True})
